@@ -12,7 +12,7 @@ and the text is parsed by the real ``beanquery.parser.parse``;  the result must 
                 IsNull, IsNotNull, Between, Add, Sub, Mul, Div, Mod, Neg, Attribute, Subscript, Function with 1
                 and 2 arguments, sub-select with the child as target / as WHERE) x 42 children (the same 30
                 kinds over plain columns + 12 leaves: column, integer, decimal, date, string, NULL, boolean,
-                list, %s, %(name)s, f(), count(*)) = 2 268 cells.  The 50 cells whose AST has no text (a
+                list, %s, %(name)s, f(), count(*)) = 2 268 cells.  The 52 cells whose AST has no text (a
                 non-primary under Attribute / Subscript) are counted, not generated; the run fails as a
                 harness error if visited + inexpressible != slots x children.
     * nary-bool same-kind / other-kind boolean children in several argument positions at once, NOT and
@@ -771,8 +771,8 @@ def check_unit(u, acc, record_case=True):
         if len(acc.samples) < 2 and salt % 41 == 0:
             acc.sample({'group': group, 'parens': parens, 'style': style, 'text': text[:300]}, limit=2)
     else:
-        _, group, label, text, expected, diff = u
-        parens = style = None
+        _, group, label, text, expected, diff = u[:6]
+        parens, style = u[6] if len(u) > 6 else (None, None)      # replay of a printed AST keeps its print mode
     acc.count(f'texts[{group}]')
     acc.add('texts', hash(text))
 
@@ -860,7 +860,7 @@ def replay(case):
     label = case.get('label')
     label = tuple(label) if isinstance(label, list) else label
     if case['mode'] == 'roundtrip':
-        u = ('text', case['group'], label, case['text'], expected, True)
+        u = ('text', case['group'], label, case['text'], expected, True, (case.get('parens'), case.get('style')))
         res = check_unit(u, acc)
         # keep the mode of the recorded print in the message
         return [Violation(fp, what, case) for fp, what, _ in res]
@@ -907,7 +907,7 @@ def run(ctx):
         'shipped_outcomes': {k[8:-1]: v for k, v in sorted(n.items()) if k.startswith('outcome[')},
         'both_parsers_agree': {k[6:-1]: v for k, v in sorted(n.items()) if k.startswith('agree[')},
         'distinct_rejection_positions': len(s['reject_positions']),
-        'foreign_exception_classes_escaping_both_parsers': sorted(s['crash_classes']),
+        'non_tatsu_exception_classes_raised_through_both_parsers': sorted(s['crash_classes']),
         'identifiers_reserved_plus_underscore': {'broken (identifier, position)': len(s['underscore_identifiers_broken']),
                                                  'fine (identifier, position)': len(s['underscore_identifiers_fine'])},
         'regenerated_parser': dict(_REGEN_INFO),
